@@ -109,7 +109,7 @@ type Diameter struct {
 	Protocol string `yaml:"protocol" valid:"required"`
 	HostIPv4 string `yaml:"hostIPv4,omitempty" valid:"required,host"`
 	Port     int    `yaml:"port,omitempty" valid:"required,port"`
-	Tls      *Tls   `yaml:"tls,omitempty" valid:"optional"`
+	Tls      *Tls   `yaml:"tls,omitempty" valid:"required"` // read unconditionally by the Diameter clients and servers
 }
 
 type Cgf struct {
